@@ -521,9 +521,11 @@ int main(int argc, char** argv) {
           Outcome u = runKind(fmt, kind, bytes, false, f, lim, nullptr, o.boolean("nan"), o.boolean("inf"), weird, alloc2,
                               (unsigned)((idx + kind) % 3));
           evals++;
-          // (an unfiltered run that stops at a capacity limit - a string longer than the configured maximum,
-          //  no slot left - is not a yardstick: the filtered run legitimately goes on past what it does not store)
-          if (u.code != "NoMemory" && (r.requested > u.requested + 64 || r.peak > u.peak + 64))
+          // (an unfiltered run that stops early is not a yardstick: at a capacity limit - a string longer than the
+          //  configured maximum, no slot left - or at a syntax error inside a part the filter discards, which skip
+          //  mode does not validate, the filtered run legitimately reads on and allocates for what follows; there
+          //  the general bound on the memory requested per input byte applies, checked in runKind)
+          if (u.code == "Ok" && (r.requested > u.requested + 64 || r.peak > u.peak + 64))
             problem = "filtered run used more memory than the unfiltered one: requested " + std::to_string(r.requested) +
                       " vs " + std::to_string(u.requested) + ", peak " + std::to_string(r.peak) + " vs " +
                       std::to_string(u.peak) + where;
